@@ -6,7 +6,7 @@ from vfw.props import common, fixcase
 PROPERTY = "C14"
 LEVEL = "exploration"
 RULE = (
-    "case = (sql, dialect, layout config variant) from dialect fixtures <= 3 kB, a seeded mutant of every 2nd and one comment-injected variant (comments / line breaks before brackets, after commas, between tokens) each, and the repo's LT* rule yaml examples with their own configs; fixed with "
+    "case = (sql, dialect, layout config variant) from dialect fixtures <= 3 kB, a seeded mutant of every 2nd and one comment-injected variant (comments / line breaks before brackets, after commas, between tokens) each, the repo's LT* rule yaml examples with their own configs, and 240 generated WITH statements with comments between / after CTEs; fixed with "
     "rules=layout only under 9 layout config variants (comma/operator position, indent unit, tab size, max line length, trailing comments, implicit indents); oracle lexes source and fixed "
     "text with the same dialect: sequence of code-token texts equal, multiset of comment texts equal; distinct = content hash + variant; non-trivial = fix changed the text"
 )
@@ -28,8 +28,29 @@ VARIANTS = [
 ]
 
 
+def cte_sql(i):
+    """WITH statements in assorted layouts with comments between CTEs, after closing brackets and before the main query
+    (added after seed C14-b: LT08 replacing a comment-only line that follows a CTE's closing bracket)."""
+    from vfw.gen.corpus import rng
+
+    r = rng("c14-cte", 1, i)
+    n = r.randint(2, 4)
+    s = r.choice(["with ", "WITH ", "with\n"])
+    for k in range(n):
+        body = r.choice([f"select {k}", f"\n    select {k}\n", f"\n    select {k} -- inner c{k}\n", f"select {k}, x from t{k}", f"\nselect {k}\n"])
+        s += f"{'abcd'[k]} as ({body})"
+        if k < n - 1:
+            s += r.choice([", ", ",\n", ",\n\n", "\n, ", f",\n-- between {k}\n", ", -- after comma\n", ",\n/* block */\n", f"\n-- before comma {k}\n,"])
+    s += r.choice(["\n", "\n\n", "\n-- final query\n", "\n-- line 1\n-- line 2\n", " -- trailing\n", "\n/* block before */\n", " ", "\n    -- indented note\n"])
+    s += r.choice(["select * from a", "select * from a cross join b", "select a.x\nfrom a"]) + r.choice(["\n", ""])
+    return s
+
+
 def universe():
     u = []
+    for i in range(240):
+        d = ("ansi", "postgres", "bigquery", "snowflake")[i % 4]
+        u.append({"id": f"lit:cte{i}:{d}|layout#{i % 3 * 4}", "kind": "lit", "source": cte_sql(i), "dialect": d, "stratum": "lit:cte", "rules": "layout", "variant": i % 3 * 4})
     base = common.fx_cases(3000) + common.mx_cases(1, 3000, start=20)[::2] + [c for c in common.rc_cases(("LT",))] + common.cx_cases(1, 3000)
     for i, c in enumerate(base):
         vi = i % len(VARIANTS)
@@ -48,7 +69,11 @@ def universe():
 
 
 def cases(tier, seed):
-    return stratified_sample(universe(), lambda c: c["stratum"], 360 if tier == "quick" else 0, seed)
+    u = universe()
+    if tier != "quick":
+        return u
+    # quick: stratified sample of the corpus part + every generated CTE/comment layout (small and cheap)
+    return stratified_sample([c for c in u if c["stratum"] != "lit:cte"], lambda c: c["stratum"], 300, seed) + [c for c in u if c["stratum"] == "lit:cte"]
 
 
 def run_case(case):
